@@ -54,24 +54,33 @@ def sortIdx (lt : OptKey → OptKey → Bool) (keys : List OptKey) : List Nat :=
 def pathOf (i : Nat) : Str := ("p" ++ toString i).toList
 def contentOf (i : Nat) : Str := ("c" ++ toString i).toList
 
-def runFs (ops : List (String × Nat × Nat)) : String :=
-  let step := fun (acc : FS × List String) (op : String × Nat × Nat) =>
+def modeOf (i : Nat) : Nat := match i with | 1 => 493 | 2 => 292 | 3 => 384 | _ => 420
+
+def runFs (ops : List (String × Nat × Nat × Nat)) : String :=
+  let step := fun (acc : FS × List String) (op : String × Nat × Nat × Nat) =>
     let (fs, out) := acc
-    let (k, i, c) := op
-    let w := if k == "w" then Writer.inPlace else if k == "r" then Writer.viaReplaceIfDifferent else Writer.viaReplace
-    let fs' := writeOut fs w (pathOf i) (contentOf c)
+    let (k, i, c, m) := op
+    let fs' :=
+      if k == "t" then
+        -- do_conf_file from a template (kept outside the listed directory) whose mode is `modeOf m`
+        let src : Str := "SRC".toList
+        (doConfFile (fs.set src ⟨[], 0, modeOf m⟩) src (pathOf i) (contentOf c)).remove src
+      else
+        let w := if k == "w" then Writer.inPlace else if k == "r" then Writer.viaReplaceIfDifferent else Writer.viaReplace
+        writeOut fs w (pathOf i) (contentOf c)
     let touched := (fs'.files.filter fun e => e.2.mtime > fs.clock).map fun e => String.ofList e.1
     let touched := touched.toArray.qsort (· < ·) |>.toList
     (fs', out ++ [",".intercalate touched])
   let (fs, out) := ops.foldl step (⟨[], 0⟩, [])
-  let final := (fs.files.map fun e => String.ofList e.1 ++ "=" ++ String.ofList e.2.content).toArray.qsort (· < ·) |>.toList
+  let final := (fs.files.map fun e => String.ofList e.1 ++ "=" ++ String.ofList e.2.content ++ "@" ++ toString e.2.mode).toArray.qsort (· < ·) |>.toList
   ";".intercalate out ++ "#" ++ ",".intercalate final
 
-def parseOps (f : String) : List (String × Nat × Nat) :=
+def parseOps (f : String) : List (String × Nat × Nat × Nat) :=
   if f.trimAscii.isEmpty then [] else
   (f.splitOn ",").filterMap fun o =>
     match o.splitOn ":" with
-    | [k, i, c] => some (k, natOf i, natOf c)
+    | [k, i, c] => some (k, natOf i, natOf c, 0)
+    | [k, i, c, m] => some (k, natOf i, natOf c, natOf m)
     | _ => none
 
 def handle (cmd : String) (fs : List String) : String :=
